@@ -12,6 +12,9 @@
 //                                                  probe/cons attach to <id> (shape WIN: a runtime window schema)
 //   record <key> <producer id>                    stdlib dense record into GlobalState[key]
 //   replay <id> shape=<S> key=<key>               stdlib replay source
+//   srecord <key> <producer id> rid=<recordable id>   stdlib sparse (absolute-time) record into GlobalState[":memory:<rid>.<key>"]
+//   sreplay <id> shape=<S> key=<key> rid=<recordable id>   stdlib replay of the sparse recording (entries at their recorded times)
+//   window2 <start> <end>                          run window of the second run (default: the first run's)
 //   runs 2                                        second run: fresh executor whose builder GlobalState is seeded with run 1's
 #include "collvocab.h"
 
@@ -85,6 +88,7 @@ namespace hv
             else if (what == "cons") wire<CCons>(w, p, Int{std::stoll(st.tok.at(1))}, Int{st.geti("every", 1)});
             else if (what == "mirror") ports[std::stoll(st.tok.at(1))] = wire<CMirror>(w, p, Int{std::stoll(st.tok.at(1))}).erased();
             else if (what == "record") wire<stdlib::dense_record_impl>(w, p, Str{st.tok.at(1)});
+            else if (what == "srecord") wire<stdlib::sparse_record_impl>(w, p, Str{st.tok.at(1)}, arg<"recordable_id">(Str{st.get("rid", "book")}));
         }
 
         template <typename Fn>
@@ -99,6 +103,19 @@ namespace hv
 
         template <typename S>
         WiringPortRef wire_replay(Wiring &w, const std::string &key) { return wire<stdlib::replay_impl, S>(w, Str{key}).erased(); }
+
+        template <typename S>
+        WiringPortRef wire_sreplay(Wiring &w, const std::string &key, const std::string &rid)
+        {
+            return wire<stdlib::replay_impl, S>(w, Str{key}, arg<"recordable_id">(Str{rid})).erased();
+        }
+        WiringPortRef make_sreplay(Wiring &w, const std::string &shape, const std::string &key, const std::string &rid)
+        {
+#define HV_X(NAME, ...) if (shape == NAME) return wire_sreplay<__VA_ARGS__>(w, key, rid);
+            HV_SHAPES(HV_X)
+#undef HV_X
+            throw std::invalid_argument("collections: unknown shape " + shape);
+        }
 
         WiringPortRef make_replay(Wiring &w, const std::string &shape, const std::string &key)
         {
@@ -133,6 +150,12 @@ namespace hv
                         shapes[id]   = st.get("shape");
                         ports[id]    = make_replay(w, st.get("shape"), st.get("key"));
                     }
+                    else if (k == "sreplay")
+                    {
+                        long long id = std::stoll(st.tok.at(1));
+                        shapes[id]   = st.get("shape");
+                        ports[id]    = make_sreplay(w, st.get("shape"), st.get("key"), st.get("rid", "book"));
+                    }
                     else if (k == "towin")
                     {
                         long long id  = std::stoll(st.tok.at(1));
@@ -153,7 +176,7 @@ namespace hv
                         ports[id]  = out;
                         shapes[id] = "WIN";
                     }
-                    else if (k == "probe" || k == "cons" || k == "mirror" || k == "record")
+                    else if (k == "probe" || k == "cons" || k == "mirror" || k == "record" || k == "srecord")
                     {
                         long long src = std::stoll(st.tok.at(2));
                         auto it = ports.find(src);
@@ -171,7 +194,7 @@ namespace hv
     int run_collections(const Scenario &sc)
     {
         g_csc = &sc;
-        long long start_off = 0, end_off = 30;
+        long long start_off = 0, end_off = 30, start2 = -1, end2 = -1;
         int runs = 1;
         g_wscript.clear();
         for (auto &st : sc.stmts)
@@ -179,6 +202,7 @@ namespace hv
             const auto &k = st.tok[0];
             if (k == "window") { start_off = std::stoll(st.tok.at(1)); end_off = std::stoll(st.tok.at(2)); }
             else if (k == "runs") runs = std::stoi(st.tok.at(1));
+            else if (k == "window2") { start2 = std::stoll(st.tok.at(1)); end2 = std::stoll(st.tok.at(2)); }
             else if (k == "wscript") parse_wscript(st);
         }
         clock_fault_config(1, 0, 0, false);
@@ -203,7 +227,8 @@ namespace hv
             obs.gid.clear();
             obs.next_gid = 0;
             GraphExecutorBuilder eb;
-            eb.graph_builder(std::move(gb)).start_time(at(start_off)).end_time(at(end_off)).add_lifecycle_observer(&obs);
+            const bool second = r > 0 && start2 >= 0;
+            eb.graph_builder(std::move(gb)).start_time(at(second ? start2 : start_off)).end_time(at(second ? end2 : end_off)).add_lifecycle_observer(&obs);
             auto ex = eb.make_executor();
             try
             {
@@ -236,6 +261,28 @@ namespace hv
                         v += "]";
                     }
                     Line("buf").i("r", r).str("key", key).raw("v", v).emit();
+                }
+            }
+            // sparse recordings: (time, delta) entries under ":memory:<recordable id>.<key>"
+            for (auto &st : sc.stmts)
+            {
+                if (st.tok[0] == "srecord" && (!st.has("run") || st.geti("run") == r))
+                {
+                    const std::string key = ":memory:" + st.get("rid", "book") + "." + st.tok.at(1);
+                    std::string v = "null";
+                    if (gs.contains(key))
+                    {
+                        auto list = gs.get(key).as_list();
+                        v         = "[";
+                        for (size_t i = 0; i < list.size(); ++i)
+                        {
+                            if (i) v += ",";
+                            auto entry = list.at(i).as_indexed_view();
+                            v += "[" + tstr(entry.at(0).checked_as<DateTime>()) + "," + jstr(entry.at(1)) + "]";
+                        }
+                        v += "]";
+                    }
+                    Line("sbuf").i("r", r).str("key", st.get("rid", "book") + "." + st.tok.at(1)).raw("v", v).emit();
                 }
             }
             carried.view().copy_from(gs);
